@@ -16,6 +16,7 @@ import (
 
 	"github.com/ethereum/go-ethereum/common"
 	"github.com/vechain/thor/v2/block"
+	"github.com/vechain/thor/v2/builtin"
 	"github.com/vechain/thor/v2/chain"
 	"github.com/vechain/thor/v2/muxdb"
 	"github.com/vechain/thor/v2/runtime"
@@ -31,8 +32,9 @@ import (
 )
 
 type Contract struct {
-	Addr string `json:"addr"` // hex number (<= 20 bytes)
-	Code string `json:"code"` // hex bytes
+	Addr string `json:"addr"`          // hex number (<= 20 bytes)
+	Code string `json:"code"`          // hex bytes ("" = an account without code)
+	Bal  string `json:"bal,omitempty"` // hex number, wei
 }
 type Slot struct {
 	Addr string `json:"addr"`
@@ -52,6 +54,7 @@ type Case struct {
 	Storage   []Slot     `json:"storage,omitempty"`
 	To        string     `json:"to,omitempty"`
 	Input     string     `json:"input,omitempty"`
+	Value     string     `json:"value,omitempty"` // hex number, wei sent with the entry call
 	Gas       uint64     `json:"gas"`
 	Vecs      []AluVec   `json:"vecs,omitempty"`
 	Sweep     []uint64   `json:"sweep,omitempty"` // additional gas values (filled by the harness / kept in replays)
@@ -69,7 +72,36 @@ const (
 	contractAHex = "a11ce0000000000000000000000000000000a1"
 	contractBHex = "b0b00000000000000000000000000000000000b2"
 	contractCHex = "c0c0a000000000000000000000000000000000c3"
+	eoaHex       = "e0a0000000000000000000000000000000000e0a" // an account with balance and no code
+	originBal    = 1_000_000_000
+	nNewAddrs    = 12
 )
+
+var txID = thor.Bytes32{0x7c, 0x10}
+
+// thor.CreateContractAddress(txID, clauseIndex 0, counter) for the first counters; $Master event id
+var newAddrs = func() []thor.Address {
+	var l []thor.Address
+	for i := uint32(0); i < nNewAddrs; i++ {
+		l = append(l, thor.CreateContractAddress(txID, 0, i))
+	}
+	return l
+}()
+var masterTopicHex = func() string {
+	ev, ok := builtin.Prototype.Events().EventByName("$Master")
+	if !ok {
+		panic("$Master event not found")
+	}
+	id := ev.ID()
+	return hx.HexN(id[:])
+}()
+
+func valOf(s string) *big.Int {
+	if s == "" {
+		return new(big.Int)
+	}
+	return bigHex(s)
+}
 
 var sharedDB = muxdb.NewMem()
 
@@ -119,6 +151,10 @@ type Obs struct {
 	Refund   uint64
 	Logs     []string // "addr topics data"
 	Storage  map[string]string // "addr key" -> value (hex number) on the key set
+	Accts    map[string]string // addr -> "balance code master"
+	Transfers []string         // "from to amount"
+	Hashes   [][2]string       // (preimage, Keccak-256) pairs the run needs
+	st       *state.State
 	Steps    [][2]uint64       // outermost frame: gas before, cost
 	PropFail []string          // property predicates that failed on this run (implementation only)
 	Ops      map[string]int
@@ -130,8 +166,10 @@ type frameSnap struct {
 	typ    vm.OpCode
 	static bool
 	vals   map[string]common.Hash
+	accts  map[common.Address]string // balance + code hash
 	refund uint64
 	nlogs  int
+	ntrans int
 }
 
 type tracer struct {
@@ -139,6 +177,9 @@ type tracer struct {
 	sdb     *statedb.StateDB
 	known   map[string]struct{} // "addr|key" ever written (or pre-set)
 	knownK  [][2][]byte
+	knownA  map[common.Address]struct{} // accounts that may have been touched (initial world, every call/create/selfdestruct target)
+	addrs   []common.Address
+	pre     map[string][]byte // byte strings the run hashes
 	frames  []*frameSnap
 	steps   [][2]uint64
 	fails   []string
@@ -201,13 +242,51 @@ func (t *tracer) addKey(a common.Address, k common.Hash) {
 	}
 }
 
-func (t *tracer) nlogs() int {
-	ev, _ := t.sdb.GetLogs()
-	return len(ev)
+func (t *tracer) nlogs() (int, int) {
+	ev, tr := t.sdb.GetLogs()
+	return len(ev), len(tr)
+}
+
+func (t *tracer) acctDigest(a common.Address) string {
+	h := t.env.StateDB.GetCodeHash(a)
+	return t.env.StateDB.GetBalance(a).Text(16) + " " + hx.Hex(h[:])
+}
+
+func (t *tracer) addAddr(a common.Address) {
+	if _, ok := t.knownA[a]; ok {
+		return
+	}
+	t.knownA[a] = struct{}{}
+	t.addrs = append(t.addrs, a)
+	if t.env == nil {
+		return
+	}
+	// first sight in this clause: every balance/code change goes through a frame entry that names its target, so the account
+	// still has the value it had at the entry of every open frame
+	cur := t.acctDigest(a)
+	for _, f := range t.frames {
+		f.accts[a] = cur
+	}
+}
+
+func (t *tracer) addPre(b []byte) { t.pre[string(b)] = append([]byte{}, b...) }
+
+// memory as the instruction will see it (the tracer runs before the resize): zero-extended
+func memSlice(m *vm.Memory, off, size uint64) []byte {
+	out := make([]byte, size)
+	d := m.Data()
+	if off < uint64(len(d)) {
+		copy(out, d[off:])
+	}
+	return out
 }
 
 func (t *tracer) snap(typ vm.OpCode) *frameSnap {
-	f := &frameSnap{typ: typ, vals: map[string]common.Hash{}, refund: t.env.StateDB.GetRefund(), nlogs: t.nlogs()}
+	nl, nt := t.nlogs()
+	f := &frameSnap{typ: typ, vals: map[string]common.Hash{}, accts: map[common.Address]string{}, refund: t.env.StateDB.GetRefund(), nlogs: nl, ntrans: nt}
+	for _, a := range t.addrs {
+		f.accts[a] = t.acctDigest(a)
+	}
 	if len(t.frames) > 0 && t.frames[len(t.frames)-1].static {
 		f.static = true
 	}
@@ -231,8 +310,13 @@ func (t *tracer) unchanged(f *frameSnap) string {
 	if r := t.env.StateDB.GetRefund(); r != f.refund {
 		return fmt.Sprintf("refund is %d, was %d at frame entry", r, f.refund)
 	}
-	if n := t.nlogs(); n != f.nlogs {
-		return fmt.Sprintf("%d logs, %d at frame entry", n, f.nlogs)
+	if n, nt := t.nlogs(); n != f.nlogs || nt != f.ntrans {
+		return fmt.Sprintf("%d logs / %d transfers, %d / %d at frame entry", n, nt, f.nlogs, f.ntrans)
+	}
+	for _, a := range t.addrs {
+		if cur := t.acctDigest(a); cur != f.accts[a] {
+			return fmt.Sprintf("account %x (balance, code hash) is [%s], was [%s] at frame entry", a, cur, f.accts[a])
+		}
 	}
 	return ""
 }
@@ -243,6 +327,9 @@ func (t *tracer) exit(err error) {
 	}
 	f := t.frames[len(t.frames)-1]
 	t.frames = t.frames[:len(t.frames)-1]
+	if f.typ == vm.SELFDESTRUCT {
+		return
+	}
 	if err != nil {
 		if d := t.unchanged(f); d != "" {
 			t.fails = append(t.fails, "failed-frame: a "+f.typ.String()+" frame ended with ["+errClass(err)+"] but "+d)
@@ -257,10 +344,18 @@ func (t *tracer) exit(err error) {
 func (t *tracer) CaptureStart(env *vm.EVM, from, to common.Address, create bool, input []byte, gas uint64, value *big.Int) {
 	t.env = env
 	t.sdb, _ = env.StateDB.(*statedb.StateDB)
+	t.addAddr(from)
+	t.addAddr(to)
 	t.frames = append(t.frames, t.snap(vm.CALL))
 }
 func (t *tracer) CaptureEnd(output []byte, gasUsed uint64, err error) { t.exit(err) }
 func (t *tracer) CaptureEnter(typ vm.OpCode, from, to common.Address, input []byte, gas uint64, value *big.Int) {
+	t.addAddr(from)
+	t.addAddr(to)
+	if typ == vm.SELFDESTRUCT { // a pseudo frame (enter/exit around the beneficiary transfer): no snapshot semantics
+		t.frames = append(t.frames, &frameSnap{typ: typ, vals: map[string]common.Hash{}, accts: map[common.Address]string{}, refund: ^uint64(0)})
+		return
+	}
 	t.frames = append(t.frames, t.snap(typ))
 	if len(t.frames) > t.maxDep {
 		t.maxDep = len(t.frames)
@@ -317,6 +412,17 @@ func (t *tracer) CaptureState(pc uint64, op vm.OpCode, gas, cost uint64, memory 
 			t.pend[depth] = &pendAlu{op: name, want: mathALU(name, v[0], v[1], v[2]), a: v[0], b: v[1], c: v[2], n: len(data) - ar + 1}
 		}
 	}
+	switch {
+	case op == vm.SHA3 && len(data) >= 2:
+		t.addPre(memSlice(memory, data[len(data)-1].Uint64(), data[len(data)-2].Uint64()))
+	case op == vm.CREATE2 && len(data) >= 4:
+		init := memSlice(memory, data[len(data)-2].Uint64(), data[len(data)-3].Uint64())
+		t.addPre(init)
+		self, salt, h := contract.Address(), data[len(data)-4].Bytes32(), thor.Keccak256(init)
+		t.addPre(append(append(append([]byte{0xff}, self[:]...), salt[:]...), h[:]...))
+	case op == vm.EXTCODEHASH && len(data) >= 1:
+		t.addPre(t.env.StateDB.GetCode(common.Address(data[len(data)-1].Bytes20())))
+	}
 	if op == vm.SSTORE && len(data) >= 2 && !(len(t.frames) > 0 && t.frames[len(t.frames)-1].static) {
 		t.addKey(contract.Address(), common.Hash(data[len(data)-1].Bytes32()))
 	}
@@ -357,12 +463,26 @@ func errClass(err error) string {
 func runImpl(c *Case, gas uint64, collectSteps bool) (o Obs) {
 	o.Storage = map[string]string{}
 	st := state.New(sharedDB, trie.Root{})
+	tr := &tracer{known: map[string]struct{}{}, ops: map[string]int{}, pend: map[int]*pendAlu{}, pendJ: map[int]*pendJump{},
+		knownA: map[common.Address]struct{}{}, pre: map[string][]byte{}}
+	tr.addPre(nil)
 	for _, ct := range c.Contracts {
-		if err := st.SetCode(addrOf(ct.Addr), hexBytes(ct.Code)); err != nil {
-			hx.Fatal("SetCode: %v", err)
+		if ct.Code != "" {
+			if err := st.SetCode(addrOf(ct.Addr), hexBytes(ct.Code)); err != nil {
+				hx.Fatal("SetCode: %v", err)
+			}
 		}
+		if b := valOf(ct.Bal); b.Sign() != 0 {
+			if err := st.SetBalance(addrOf(ct.Addr), b); err != nil {
+				hx.Fatal("SetBalance: %v", err)
+			}
+		}
+		tr.addAddr(common.Address(addrOf(ct.Addr)))
 	}
-	tr := &tracer{known: map[string]struct{}{}, ops: map[string]int{}, pend: map[int]*pendAlu{}, pendJ: map[int]*pendJump{}}
+	if err := st.SetBalance(addrOf(originHex), big.NewInt(originBal)); err != nil {
+		hx.Fatal("SetBalance: %v", err)
+	}
+	tr.addAddr(common.Address(addrOf(originHex)))
 	for _, s := range c.Storage {
 		st.SetStorage(addrOf(s.Addr), b32Of(s.Key), b32Of(s.Val))
 		a, k := common.Address(addrOf(s.Addr)), common.Hash(b32Of(s.Key))
@@ -374,8 +494,8 @@ func runImpl(c *Case, gas uint64, collectSteps bool) (o Obs) {
 	rt := runtime.New(theChain, st, &xenv.BlockContext{Beneficiary: addrOf(coinbaseHex), Number: envNumber, Time: envTime,
 		GasLimit: envGasLimit, BaseFee: big.NewInt(envBaseFee)}, &thor.SoloFork).SetVMConfig(vm.Config{Tracer: tr})
 	to := addrOf(c.To)
-	exec, _ := rt.PrepareClause(tx.NewClause(&to).WithData(hexBytes(c.Input)), 0, gas,
-		&xenv.TransactionContext{Origin: addrOf(originHex), GasPrice: big.NewInt(envGasPrice)})
+	exec, _ := rt.PrepareClause(tx.NewClause(&to).WithData(hexBytes(c.Input)).WithValue(valOf(c.Value)), 0, gas,
+		&xenv.TransactionContext{ID: txID, Origin: addrOf(originHex), GasPrice: big.NewInt(envGasPrice)})
 	var out *runtime.Output
 	func() {
 		defer func() {
@@ -389,6 +509,12 @@ func runImpl(c *Case, gas uint64, collectSteps bool) (o Obs) {
 			o.Panic = err.Error()
 		}
 	}()
+	o.st = st
+	for _, b := range tr.pre {
+		h := thor.Keccak256(b)
+		o.Hashes = append(o.Hashes, [2]string{hexOrDash(b), hx.HexN(h[:])})
+	}
+	sort.Slice(o.Hashes, func(i, j int) bool { return o.Hashes[i][0] < o.Hashes[j][0] })
 	if o.Panic != "" || out == nil {
 		return o
 	}
@@ -422,6 +548,13 @@ func runImpl(c *Case, gas uint64, collectSteps bool) (o Obs) {
 		}
 		o.Storage[hx.HexN(k[0])+" "+hx.HexN(k[1])] = hx.HexN(v[:])
 	}
+	o.Accts = map[string]string{}
+	for _, a := range tr.addrs {
+		o.Accts[hx.HexN(a[:])] = o.readAcct(hx.HexN(a[:]))
+	}
+	for _, t := range out.Transfers {
+		o.Transfers = append(o.Transfers, hx.HexN(t.Sender[:])+" "+hx.HexN(t.Recipient[:])+" "+t.Amount.Text(16))
+	}
 	// the property's own clauses, on the implementation's observations alone
 	o.PropFail = tr.fails
 	if o.Class != "ok" {
@@ -431,8 +564,14 @@ func runImpl(c *Case, gas uint64, collectSteps bool) (o Obs) {
 				o.PropFail = append(o.PropFail, "failed-frame: the entry call ended with ["+o.ErrText+"] but storage "+id+" changed")
 			}
 		}
-		if len(o.Logs) != 0 || o.Refund != 0 {
-			o.PropFail = append(o.PropFail, fmt.Sprintf("failed-frame: the entry call ended with [%s] but left %d logs, refund %d", o.ErrText, len(o.Logs), o.Refund))
+		if len(o.Logs) != 0 || o.Refund != 0 || len(o.Transfers) != 0 {
+			o.PropFail = append(o.PropFail, fmt.Sprintf("failed-frame: the entry call ended with [%s] but left %d logs, %d transfers, refund %d", o.ErrText, len(o.Logs), len(o.Transfers), o.Refund))
+		}
+		for _, ct := range c.Contracts {
+			want := valOf(ct.Bal).Text(16) + " " + hexOrDash(hexBytes(ct.Code)) + " 0"
+			if got := o.Accts[hx.HexN(addrOf(ct.Addr).Bytes())]; got != want {
+				o.PropFail = append(o.PropFail, "failed-frame: the entry call ended with ["+o.ErrText+"] but account "+ct.Addr+" is ["+got+"], was ["+want+"]")
+			}
 		}
 	}
 	if o.Gas > gas {
@@ -445,6 +584,31 @@ func runImpl(c *Case, gas uint64, collectSteps bool) (o Obs) {
 	o.MaxDepth = tr.maxDep
 	o.AluSeen = tr.aluSeen
 	return o
+}
+
+// readAcct / readSlot: final state of an account / slot straight from the state
+func (o *Obs) readAcct(addrHex string) string {
+	a := addrOf(addrHex)
+	bal, err := o.st.GetBalance(a)
+	if err != nil {
+		hx.Fatal("GetBalance: %v", err)
+	}
+	code, err := o.st.GetCode(a)
+	if err != nil {
+		hx.Fatal("GetCode: %v", err)
+	}
+	m, err := o.st.GetMaster(a)
+	if err != nil {
+		hx.Fatal("GetMaster: %v", err)
+	}
+	return bal.Text(16) + " " + hexOrDash(code) + " " + hx.B(!m.IsZero())
+}
+func (o *Obs) readSlot(addrHex, keyHex string) string {
+	v, err := o.st.GetStorage(addrOf(addrHex), b32Of(keyHex))
+	if err != nil {
+		hx.Fatal("GetStorage: %v", err)
+	}
+	return hx.HexN(v[:])
 }
 
 // expected oracle answer text built from the implementation's observations (same layout as the oracle prints);
